@@ -437,6 +437,15 @@ def writable_by_description_means_writable(ctx):
               'InternalError for every change', hook)
 
 
+@rule('C06.R4d', min_instances=2)
+def described_flags_are_the_declared_ones(ctx):
+    """shared with C09.R2g: the module instance holds COPIES of the accessibles of its class; a copy that injects a constructor
+    default as own property (readonly=False of StructParam / FloatEnumParam) is described with another readonly flag than
+    the class declares - and a struct parameter described as writable has no write method"""
+    from sa.rules import c09
+    c09.copy_keeps_every_declared_property(ctx)
+
+
 def _truth(test):
     neg = False
     while isinstance(test, ast.UnaryOp) and isinstance(test.op, ast.Not):
